@@ -178,7 +178,10 @@ static void trace_op(const char *op)
   int at = sh->trlen;
   if(at + n + 2 >= sizeof sh->trace) return;
   if(at) sh->trace[at++] = ',';
-  memcpy((char *)sh->trace + at, op, n); at += n;
+  memcpy((char *)sh->trace + at, op, n);
+  /* the pen calls are all "a call that reads these windows" to the discipline: one spelling in the trace */
+  if(op[0] == 'z' || op[0] == 'P') ((char *)sh->trace)[at] = 'q';
+  at += n;
   sh->trace[at] = 0;
   sh->trlen = at;
 }
@@ -213,7 +216,7 @@ static void w_op(const char *op, int depth)
         case 'r': w_emit_mouse(TICKIT_MOUSEEV_RELEASE); break;
         case 'w': w_emit_mouse(TICKIT_MOUSEEV_WHEEL); break;
       } break;
-    case 'b': {   /* b<i>.<k|m>.<maskhex>.<ret>.<actions> */
+    case 'b': {   /* b<i>.<k|m|e|f|g>.<maskhex>.<ret>.<actions> */
       int i = p_int(&s);
       struct hdata *h = malloc(sizeof *h);
       h->kind = *s++; if(*s == '.') s++;
@@ -222,9 +225,17 @@ static void w_op(const char *op, int depth)
       h->actions = strdup(s); h->depth = 0;
       if(nHD >= 256) { printf("ERR too-many-handlers\n"); fflush(stdout); _exit(0); }
       HD[nHD++] = h;      /* handlers are numbered in the order they are bound */
-      if(h->kind == 'k') h->cid = tickit_window_bind_event(W[i], TICKIT_WINDOW_ON_KEY, 0, &on_wkey, h);
-      else               h->cid = tickit_window_bind_event(W[i], TICKIT_WINDOW_ON_MOUSE, 0, &on_wmouse, h);
+      switch(h->kind) {
+        case 'k': h->cid = tickit_window_bind_event(W[i], TICKIT_WINDOW_ON_KEY, 0, &on_wkey, h); break;
+        case 'm': h->cid = tickit_window_bind_event(W[i], TICKIT_WINDOW_ON_MOUSE, 0, &on_wmouse, h); break;
+        /* the other dispatching kinds: every bound handler of the kind runs, the return value is not looked at */
+        case 'e': h->cid = tickit_window_bind_event(W[i], TICKIT_WINDOW_ON_EXPOSE, 0, &on_wkey, h); break;
+        case 'f': h->cid = tickit_window_bind_event(W[i], TICKIT_WINDOW_ON_FOCUS, 0, &on_wkey, h); break;
+        case 'g': h->cid = tickit_window_bind_event(W[i], TICKIT_WINDOW_ON_GEOMCHANGE, 0, &on_wkey, h); break;
+        default: printf("ERR handler-kind %s\n", op); fflush(stdout); _exit(0);
+      }
       break; }
+    case 'N': { int i = p_int(&s), v = p_int(&s); tickit_window_set_focus_child_notify(W[i], v); break; }
     case 'U': { int i = p_int(&s), n = p_int(&s);   /* unbind handler number n (bound on window i) */
       if(n < 0 || n >= nHD) { printf("ERR no-such-handler\n"); fflush(stdout); _exit(0); }
       tickit_window_unbind_event_id(W[i], HD[n]->cid); break; }
@@ -232,6 +243,27 @@ static void w_op(const char *op, int depth)
       TickitRect r = tickit_window_get_geometry(W[i]);
       r.lines = r.lines == 4 ? 3 : 4;
       tickit_window_set_geometry(W[i], r); break; }
+    case 'p': { int i = p_int(&s);                  /* tickit_window_reposition: one line up while the GEOMCHANGE handlers run */
+      TickitWindow *w = W[i];
+      tickit_window_reposition(w, -1, 0);
+      if(!wdead[i]) w->rect.top = 0;                /* back in place without a second event */
+      break; }
+    case 'Z': {                                     /* the terminal grows by one line: on_term_resize resizes the root */
+      int lines, cols; tickit_term_get_size(wterm, &lines, &cols);
+      tickit_mockterm_resize((TickitMockTerm *)wterm, lines + 1, cols);
+      if(!wdead[0]) tickit_window_expose(W[0], NULL);   /* ... and everything is redrawn: the damage stays one rectangle */
+      break; }
+    /* window pens: the window holds a reference on its pen; set_pen with the pen it already has, with another
+     * window's pen, with NULL, with a fresh pen; scrollrect with a pen argument */
+    case 'q': { int i = p_int(&s); tickit_window_set_pen(W[i], tickit_window_get_pen(W[i])); break; }
+    case 'Q': { int i = p_int(&s), j = p_int(&s); tickit_window_set_pen(W[i], tickit_window_get_pen(W[j])); break; }
+    case 'z': { int i = p_int(&s); tickit_window_set_pen(W[i], NULL); break; }
+    case 'P': { int i = p_int(&s);
+      TickitPen *pen = tickit_pen_new_attrs(TICKIT_PEN_FG, 2, TICKIT_PEN_BOLD, 1, 0);
+      tickit_window_set_pen(W[i], pen); tickit_pen_unref(pen); break; }
+    case 'o': { int i = p_int(&s), j = p_int(&s);
+      TickitRect r = { .top = 0, .left = 0, .lines = 2, .cols = 8 };   /* full width: the damage stays one rectangle */
+      tickit_window_scrollrect(W[i], &r, 1, 0, tickit_window_get_pen(W[j])); break; }
     case '-': break;   /* no-op */
     default: printf("ERR op %s\n", op); fflush(stdout); _exit(0);
   }
